@@ -45,6 +45,10 @@ pub enum Op {
     /// `stage()` -> `unstage()` -> `replay_stage()`
     StageRoundTrip { r: usize },
     Snapshot { r: usize },
+    /// `stage()` is exported and kept aside; unless `keep`, the stage is then discarded (`unstage()`)
+    StageSave { r: usize, keep: bool },
+    /// `replay_stage()` of the export kept aside by the last StageSave (if any)
+    StageRestore { r: usize },
     /// direct object API on one tracked element: kind 0 update_object(fields), 1 delete_object,
     /// 2 remove_object
     ObjOp { r: usize, kind: u8, id_sel: u32, fields: Value },
@@ -82,7 +86,7 @@ impl Op {
         use Op::*;
         match self {
             Update { r, .. } | Commit { r, .. } | Meld { r, .. } | Refresh { r } | Reload { r } | ReloadUntil { r, .. }
-            | Resolve { r, .. } | Unstage { r } | StageRoundTrip { r } | Snapshot { r } | ObjOp { r, .. } | Restart { r }
+            | Resolve { r, .. } | Unstage { r } | StageRoundTrip { r } | Snapshot { r } | StageSave { r, .. } | StageRestore { r } | ObjOp { r, .. } | Restart { r }
             | FailWrites { r, .. } | DiskFull { r, .. } | Read { r, .. } => Some(*r),
             Send { to, .. } | SendAll { to, .. } => Some(*to),
             Tick | Partition { .. } | Heal | Converge { .. } => None,
@@ -103,6 +107,8 @@ impl Op {
             Unstage { .. } => "unstage",
             StageRoundTrip { .. } => "stage_roundtrip",
             Snapshot { .. } => "snapshot",
+            StageSave { .. } => "stage_save",
+            StageRestore { .. } => "stage_restore",
             ObjOp { .. } => "objop",
             Send { .. } => "send",
             SendAll { .. } => "sendall",
@@ -135,6 +141,8 @@ impl Op {
             Unstage { r } => json!({"op":"unstage","r":r}),
             StageRoundTrip { r } => json!({"op":"stage_roundtrip","r":r}),
             Snapshot { r } => json!({"op":"snapshot","r":r}),
+            StageSave { r, keep } => json!({"op":"stage_save","r":r,"keep":keep}),
+            StageRestore { r } => json!({"op":"stage_restore","r":r}),
             ObjOp { r, kind, id_sel, fields } => json!({"op":"objop","r":r,"kind":kind,"id_sel":id_sel,"fields":fields}),
             Send { from, to, sel, delay, dup, drop } => json!({"op":"send","from":from,"to":to,"sel":sel,"delay":delay,"dup":dup,"drop":drop}),
             SendAll { from, to } => json!({"op":"sendall","from":from,"to":to}),
@@ -168,6 +176,8 @@ impl Op {
             "unstage" => Op::Unstage { r: u("r")? },
             "stage_roundtrip" => Op::StageRoundTrip { r: u("r")? },
             "snapshot" => Op::Snapshot { r: u("r")? },
+            "stage_save" => Op::StageSave { r: u("r")?, keep: b("keep") },
+            "stage_restore" => Op::StageRestore { r: u("r")? },
             "objop" => Op::ObjOp { r: u("r")?, kind: u("kind")? as u8, id_sel: u32_("id_sel")?, fields: o.get("fields").cloned().unwrap_or(Value::Null) },
             "send" => Op::Send { from: u("from")?, to: u("to")?, sel: u32_("sel")?, delay: u32_("delay")?, dup: b("dup"), drop: b("drop") },
             "sendall" => Op::SendAll { from: u("from")?, to: u("to")? },
